@@ -17,7 +17,7 @@ if '11. As built' not in s[:3000]:
 seeds=[]
 for f in sorted(glob.glob(root+'/seeded/*/meta.json')):
     d=json.load(open(f))
-    seeds.append((f.split('/')[-2], d['property'], d['needs_to_manifest'], d.get('detected_by_obligations',[])))
+    seeds.append((f.split('/')[-2], d['property'], d['needs_to_manifest'], d.get('detected_by_obligations',[]) if d.get('expect')!='clean' else ['(harmless since a later fix: the check stays quiet, as it must)']))
 kf=json.load(open(root+'/known_findings.json'))
 sec=open(root+'/tools/design_section11.md').read()
 tab='| seed | what it needs to manifest | reported through |\n|---|---|---|\n'
